@@ -300,14 +300,14 @@ def run_action(action, args):
             call_command('evolve', hint=True, interactive=False, stdout=out,
                          stderr=err)
         elif action == 'mark':
-            call_command('mark-evolution-applied', args['app'],
+            call_command('mark-evolution-applied',
                          *args.get('labels', []), interactive=False,
-                         stdout=out, stderr=err,
-                         **({'all': True} if args.get('all') else {}))
+                         app_label=args['app'], stdout=out, stderr=err,
+                         **({'apply_all': True} if args.get('all') else {}))
         elif action == 'wipe':
-            call_command('wipe-evolution', *['%s.%s' % (args['app'], l)
-                                             for l in args['labels']],
-                         interactive=False, stdout=out, stderr=err)
+            call_command('wipe-evolution', *args['labels'],
+                         app_label=args['app'], interactive=False,
+                         stdout=out, stderr=err)
         elif action == 'makemigrations':
             call_command('makemigrations', args['app'], name=args['name'],
                          interactive=False, verbosity=0, stdout=out,
@@ -348,6 +348,10 @@ def main():
     else:
         if args.get('fault_at'):
             FAULT['at'] = int(args['fault_at'])
+        if args.get('fault_re'):
+            import re as _re
+            _rx = _re.compile(args['fault_re'])
+            FAULT['match'] = lambda sql: bool(_rx.search(sql))
         res = run_action(action, args)
         if not args.get('no_facts'):
             try:
